@@ -5,6 +5,7 @@ import (
 	"math/rand"
 	"os"
 	"path/filepath"
+	"runtime"
 	"strings"
 	"sync/atomic"
 	"testing"
@@ -217,9 +218,106 @@ func c16Racing(rng *rand.Rand, seq int) (viols []string, stats map[string]int) {
 	return
 }
 
+// c16Burst: one member flaps faster than the application reads (event channel of 4 slots,
+// consumer slower than the producer), so every channel between serf and the application runs
+// full. Nothing may overtake: the application sees join(v1), failed, join(v2), failed, ... in
+// exactly that order.
+func c16Burst(rng *rand.Rand, seq int) (viol string, stats map[string]int) {
+	stats = map[string]int{}
+	nw := simnet.New(int64(seq))
+	nd, err := cluster.Start(nw, cluster.Opts{Name: fmt.Sprintf("burst-%d", seq), IP: "10.16.1.1", Profile: "passive", NoDrain: true, EventBuf: 4,
+		Mutate: func(c *serf.Config) { c.ReapInterval = 100 * time.Hour }})
+	if err != nil {
+		return "setup: " + err.Error(), stats
+	}
+	flaps := 1500
+	type ev struct {
+		kind string
+		v    string
+	}
+	var got []ev
+	done := make(chan struct{})
+	go func() {
+		defer close(done)
+		n := 0
+		for e := range nd.Ch {
+			if me, ok := e.(serf.MemberEvent); ok {
+				for _, m := range me.Members {
+					if m.Name == "flapper" {
+						got = append(got, ev{c16Kind(me.Type), m.Tags["v"]})
+					}
+				}
+			}
+			if ue, ok := e.(serf.UserEvent); ok && ue.Name == "burst-end" {
+				return
+			}
+			n++
+			if n%3 == 0 {
+				for k := 0; k < 2000; k++ { // a slightly slow consumer
+					_ = k
+				}
+				runtime.Gosched()
+			}
+		}
+	}()
+	for i := 1; i <= flaps; i++ {
+		fn := cluster.FakeNode("flapper", "10.16.1.9", 7946, wire.EncodeTags(map[string]string{"v": fmt.Sprint(i)}))
+		nd.NotifyJoin(fn)
+		nd.NotifyLeave(fn)
+	}
+	_ = nd.S.UserEvent("burst-end", nil, false)
+	select {
+	case <-done:
+	case <-time.After(60 * time.Second):
+		stats["burst_watchdog"]++
+		nd.Close()
+		return "", stats
+	}
+	go func() { // keep draining so that the shutdown cannot block
+		for range nd.Ch {
+		}
+	}()
+	nd.Close()
+	stats["burst_events_received"] = len(got)
+	for i := 0; i < len(got); i++ {
+		wantKind, wantV := "join", fmt.Sprint(i/2+1)
+		if i%2 == 1 {
+			wantKind = "failed"
+		}
+		if got[i].kind != wantKind || (wantKind == "join" && got[i].v != wantV) {
+			lo := i - 2
+			if lo < 0 {
+				lo = 0
+			}
+			hi := i + 3
+			if hi > len(got) {
+				hi = len(got)
+			}
+			return fmt.Sprintf("one member joined and failed %d times in a burst while the application read slowly from a 4-slot event channel: event %d is %s(v%s), expected %s(v%s); around it: %v", flaps, i, got[i].kind, got[i].v, wantKind, wantV, got[lo:hi]), stats
+		}
+	}
+	if len(got) != 2*flaps {
+		return fmt.Sprintf("%d flaps, %d member events received (expected %d)", flaps, len(got), 2*flaps), stats
+	}
+	return "", stats
+}
+
 func TestC16(t *testing.T) {
 	r := evid.Start(t, "C16", "exploration")
 	if os.Getenv("VERIF_PHASE") != "race" {
+		r.Cases("burst", r.N(12, 300), 4, func(ci int, rng *rand.Rand) {
+			viol, stats := c16Burst(rng, ci)
+			r.Eval(1)
+			for k, v := range stats {
+				r.Count(k, v)
+			}
+			if stats["burst_watchdog"] > 0 {
+				r.Inconclusive("burst phase: end marker not seen within 60 s (watchdog)")
+			}
+			if viol != "" {
+				r.Violation("burst-reordered", ci, viol, viol)
+			}
+		})
 		r.Cases("racing", r.N(24, 600), 3, func(ci int, rng *rand.Rand) {
 			viols, stats := c16Racing(rng, ci)
 			r.Eval(1)
